@@ -361,6 +361,7 @@ class Circuit:
         for n in list(self.forks.values()):
             if n in ios: continue
             if len(n.outs) != 1: continue
+            if len(n.ins) < 1 or n.ins[0] is None: continue  # a fork without driver is not a 1:1 fork
             in_line = n.ins[0]
             out_line = n.outs[0]
             out_reader = out_line.reader
